@@ -259,7 +259,9 @@ def execute(case):
             calm = dict(env, latency=0, clobber=False)
             ms2 = CsrMachine(S, calm, [decl], label="sub")
             ms2.split_launch = pc
-            ms2.step_limit = max(50_000, 20 * mr.steps)
+            # generous: a launch + await costs a handful of steps at accfg level but ~100 interpreted ops once lowered
+            # (address constants, two launch writes, the polling loop); a true hang exceeds any bound
+            ms2.step_limit = min(max(200_000, 400 * mr.steps), 20_000_000)
             try:
                 ms2.run_single("f", G.env_args(calm), Core(0))
             except StepLimit:
